@@ -40,6 +40,9 @@ func repoRoot() string {
 // which therefore has to be inside the module).
 var sharedFset = token.NewFileSet()
 
+// one source importer for every package loaded by one run: the dependencies are type-checked once
+var sharedImporter = importer.ForCompiler(sharedFset, "source", nil)
+
 func loadPkg(dir string, importPath string) *Pkg {
 	if err := os.Chdir(repoRoot()); err != nil {
 		fatal("chdir %s: %v", repoRoot(), err)
@@ -77,7 +80,7 @@ func loadPkg(dir string, importPath string) *Pkg {
 			Selections: map[*ast.SelectorExpr]*types.Selection{},
 		}
 		var terrs []string
-		conf := types.Config{Importer: importer.ForCompiler(fset, "source", nil), Error: func(e error) { terrs = append(terrs, e.Error()) }}
+		conf := types.Config{Importer: sharedImporter, Error: func(e error) { terrs = append(terrs, e.Error()) }}
 		_ = name
 		tp, _ := conf.Check(importPath, fset, p.Files, p.Info)
 		if len(terrs) > 0 {
